@@ -2,7 +2,7 @@
 every sentinel; insertion probes search past deleted slots (R-PROBE); every function maps a hash to a slot the same
 way (R-SIBLING.index); every map operation routes every HashMapStorage variant to a back end that consumes the key."""
 from vlib import fixtures
-from rules import sentinel, variant, parallel
+from rules import sentinel, variant, parallel, simdsign
 
 FILE = "src/hash_map/zipora_hash_map.rs"
 OPS = ("::insert", "::get", "::get_mut", "::remove", "::clear", "::len")
@@ -10,7 +10,7 @@ OPS = ("::insert", "::get", "::get_mut", "::remove", "::clear", "::len")
 
 def run(ctx):
     fx = ctx.facts("default")
-    fixtures.run(ctx, ['variant', 'probe', 'sibling', 'parallel', 'clear'])
+    fixtures.run(ctx, ['variant', 'probe', 'sibling', 'parallel', 'clear', 'padmask'])
     sents, _ = sentinel.run(ctx, fx, FILE, "hash_map::zipora_hash_map::HashEntry::hash")
     sentinel.completeness(ctx, fx, FILE, "hash_map::zipora_hash_map::HashEntry::hash", sents)
     sentinel.probe_past_tombstones(ctx, fx, FILE, "hash_map::zipora_hash_map::HashEntry::hash", sents)
@@ -23,6 +23,10 @@ def run(ctx):
     parallel.clear_all(ctx, fx, ["src/hash_map/gold_hash_map.rs", "src/hash_map/zipora_hash_map.rs", "src/hash_map/gold_hash_idx.rs",
                                  "src/containers/specialized/small_map.rs"])
     ctx.floor("R-CLEAR.fields", 3)
+    # SIMD key search over a partially filled inline array: the zero padding does not match key 0
+    simdsign.padded_mask(ctx, fx, ['src/containers/specialized/small_map.rs', 'src/hash_map/cache_locality.rs',
+                                   'src/hash_map/zipora_hash_map.rs', 'src/hash_map/gold_hash_map.rs'])
+    ctx.floor("R-PADMASK.sites", 2)
     ctx.floor("R-TAINT-S.complete.enumerators", 1)
     ctx.floor("R-TAINT-S.sources", 4)
     ctx.floor("R-TAINT-S.sinks", 5)
